@@ -150,7 +150,13 @@ def r2_strip_keeps_tail_position(ctx):
         raise CheckError("R-C16-2: expected one comparison of the term index with last_index in strip_chain, found %d" % len(eqs))
     eql, val_not_last, val_last = eqs[0]
     # splice = Vec::extend on `simplified`
-    simp = [l["i"] for l in b.locals if l.get("name") == "simplified"]
+    # the rebuilt term list: the operand of the `terms` field of the returned Chain
+    from qvlib.paths import agg_sites as _aggs
+    simp = []
+    for _bi, _si, _s in _aggs(b, "ast::Chain"):
+        for fname, o in zip(_s["rv"]["fields"], _s["rv"]["ops"]):
+            if fname == "terms" and op_place(o):
+                simp.append(fl.canon_place(op_place(o))[0])
     ext = []
     for bi, t in b.calls():
         if (t.get("callee") or "").endswith("Extend::extend") or (t.get("callee") or "").endswith("Vec::extend") or (t.get("callee") or "").endswith("Vec::append"):
